@@ -80,6 +80,49 @@ def _gen_case(rng: random.Random, k: int) -> Dict[str, Any]:
         hive_cosim.close(rp)
         log_path = Path(out) / "run" / "event.log"
         lines = log_path.read_text().splitlines() if log_path.exists() else []
+        # the same run again with only some report types selected in the logging configuration: the
+        # records that are still written must be the ones written before (what is logged of one
+        # kind does not depend on which other kinds are logged)
+        config_msgs: List[str] = []
+        if rng.random() < 0.35:
+            from nrel.hive.reporting.report_type import ReportType
+
+            all_types = sorted(cfg.global_config.log_sim_config, key=lambda t: t.name)
+            keep = {t for t in all_types if rng.random() < 0.4}
+            keep.add(ReportType.STATION_LOAD_EVENT)
+            if rng.random() < 0.6:
+                keep.discard(ReportType.VEHICLE_CHARGE_EVENT)
+            out2 = tempfile.mkdtemp(prefix="events", dir=WORK)
+            try:
+                cfg2 = cfg._replace(global_config=cfg.global_config._replace(output_base_directory=out2, log_sim_config=frozenset(keep)),
+                                    scenario_output_directory=Path(out2) / "run")
+                rp2 = load_simulation(cfg2)
+                rp2 = hive_cosim.crank(rp2, n).runner_payload
+                hive_cosim.close(rp2)
+                p2 = Path(out2) / "run" / "event.log"
+                lines2 = p2.read_text().splitlines() if p2.exists() else []
+            finally:
+                shutil.rmtree(out2, ignore_errors=True)
+
+            def canon(ls, names):
+                outl = []
+                for ln in ls:
+                    try:
+                        e = json.loads(ln)
+                    except Exception:
+                        continue
+                    if e.get("report_type") in names:
+                        e.pop("session_id", None)
+                        outl.append(json.dumps(e, sort_keys=True))
+                return outl
+
+            names = {t.name.lower() for t in keep}
+            a, b = canon(lines, names), canon(lines2, names)
+            if a != b:
+                i = next((k for k in range(min(len(a), len(b))) if a[k] != b[k]), min(len(a), len(b)))
+                config_msgs.append(
+                    f"C19/log-config| with only {sorted(names)} selected in the logging configuration, the records of those kinds differ from the ones written when every kind is "
+                    f"selected ({len(b)} vs {len(a)} records; first difference at #{i}: {(b[i] if i < len(b) else None)!s:.160} vs {(a[i] if i < len(a) else None)!s:.160})")
         ids: Dict[str, Dict[str, int]] = {"v": {}, "s": {}, "r": {}}
 
         def num(kind: str, x: str) -> int:
@@ -121,7 +164,7 @@ def _gen_case(rng: random.Random, k: int) -> Dict[str, Any]:
             "inService": [num("r", v.vehicle_state.request.id) for v in rp.s.vehicles.values()
                           if type(v.vehicle_state).__name__ == "ServicingTrip" and len(v.vehicle_state.route) > 0],
             "summaryRequests": int(summary.get("total_requests", -1)), "summaryCancelled": int(summary.get("cancelled_requests", -1)),
-            "badLines": bad_lines[:5], "raised": None,
+            "badLines": bad_lines[:5], "configMsgs": config_msgs, "raised": None,
             "meta": {**variant, "events": kinds, "summary_keys": sorted(summary.keys())[:30]},
         }
     finally:
@@ -160,6 +203,8 @@ def worker(args) -> Dict[str, Any]:
             findings.append({"id": r["id"], "kind": "mon", "record": r, "text": [f"C19/run-stopped| {r['raised']}"]})
         if r["badLines"]:
             findings.append({"id": r["id"], "kind": "mon", "record": r, "text": [f"C19/unparsable-record| {b}" for b in r["badLines"]]})
+        if r.get("configMsgs"):
+            findings.append({"id": r["id"], "kind": "mon", "record": r, "text": r["configMsgs"]})
         if "error" in o:
             findings.append({"id": r["id"], "kind": "driver-error", "text": [o["error"][:300]], "record": r})
         if "error" not in o and o.get("mon"):
